@@ -141,7 +141,33 @@ CLAIM = {
             'construction (states are values); on the code the child is compared with the model run of prefix + '
             'child operations and with its own first-principles shadow, the parent with its own; per-user views '
             '(blocks of H) are read-only views (R3). R14 - K = 257 users in every quick run, 257 / 258 / 300 '
-            '(plain and ExtInt) in thorough; 2^16+1 users would need a 2^32-entry matrix and is not run.',
+            '(plain and ExtInt) in thorough; 2^16+1 users would need a 2^32-entry matrix and is not run. '
+            'R15 (distinct values that are merely close; applies to every setter and to the transmitted data - the '
+            'source has no value comparison today, so the class guards against an isclose / threshold / rounded-key '
+            'shortcut): THEOREMS setter_takes_effect_for_every_new_value (the second of two accepted set_pathloss / '
+            'noise_var / set_post_filter / init_from_channel_matrix calls decides alone, whatever was set before), '
+            'lookup_exact (pathloss / noise_var / big_H read back exactly the argument; different arguments give '
+            'different outputs), every_accepted_noise_variance_adds_noise (no magnitude threshold). Code: for each of '
+            'set_pathloss, noise_var, init_from_channel_matrix, set_post_filter, corrupt_data / '
+            'corrupt_concatenated_data and each kind of closeness (roots 1 vs 1+2^-26, relative 2^-20 at 0.56 and at '
+            '9.7e9, 9.1e-13 vs 2.0e-12, 0 vs 3.6e-15, 1 vs 1+2^-19, 3.7e-9 vs 3.7e-9+1.8e-15) value 1, every '
+            'observable, value 2, every observable: EXACT correspondence with the model and exact first-principles '
+            'oracle (all values are squares of dyadic rationals, one many-bit factor at a time so binary64 is exact); '
+            'the float stream adds truly adjacent doubles (0.3 / nextafter), 2.4e9 vs 2.4e9+2e4, 1e-12 vs 4e-13, 0.5 '
+            'vs 0.5+1e-13, where pathloss / noise_var must read back bit for bit and the derived views are compared '
+            'relative to their own scale (1e-9): a difference below 1e-9 relative in a DERIVED view is only visible '
+            'in the exact stream. R16 (argument identity and buffer reuse): Model/C08Buf.lean (caller heap, refill, '
+            'call with arguments read at call time), THEOREMS results_depend_on_contents_at_call_time, '
+            'later_refills_do_not_change_earlier_results; on the code BufPool hands every array argument (channel '
+            'matrix, Nr / Nt / NtE, both parts of the path loss, filters, data blocks, stacked data) to the object '
+            'through ONE preallocated array per shape and element type refilled in place, the containers (list / '
+            'object array of filters / data) reused and reassigned in place, equal contents within one call = the '
+            'SAME array object (Nr is Nt is NtE, set_pathloss(P, P), corrupt_data(D, D), one block for every user), '
+            'arguments overwritten after the call; every output is compared exactly with the model run on the '
+            'contents at call time and with the first-principles shadow, earlier outputs must keep their values, a '
+            'caller array that became read-only is reported (r16:caller-array-made-read-only). Not covered: '
+            'argument identity across DIFFERENT channel objects sharing one array (R7 shares objects between users '
+            'only through the oracle).',
 }
 
 # which comparison between the regenerated effect tables and the model fails (run only when the build broke)
@@ -268,8 +294,9 @@ class Gen:
     mode: 'plain' | 'typed' (R1/R2: narrow dtypes, python scalars/lists, non-contiguous views)
           | 'scaled' (R6: every input times a power of two / ten) ; stream 'exact' | 'float'"""
 
-    def __init__(self, rng, ext, exact=True, mode='plain', kmax=4, amax=3):
+    def __init__(self, rng, ext, exact=True, mode='plain', kmax=4, amax=3, roles=False):
         self.rng, self.ext, self.exact, self.mode = rng, ext, exact, mode
+        self.roles = roles          # R16: layouts in which one array object can serve two parameters
         self.kmax, self.amax = kmax, amax
         self.K = 0
         self.nr, self.nt, self.ntE = [], [], []
@@ -714,6 +741,197 @@ class Gen:
         self.ops.append({'op': 'fork', 'how': rng.choice(['copy', 'deepcopy', 'pickle']), 'child': child})
         self.burst(short=True)
 
+    # ---- R15: distinct values that are merely close
+    def close_values(self, variant):
+        """two DIFFERENT values v1, v2 (path losses / noise variances: exact stream = squares of dyadic rationals so
+        that the roots are exact) which np.isclose (atol 1e-8, rtol 1e-5), a `> 1e-8` threshold or a key rounded to
+        12 decimals would identify; the order is random"""
+        if self.exact:
+            q = {'adjacent': (Fraction(1), 1 + Fraction(1, 2 ** 26)),
+                 'rel1e-6': (Fraction(3, 4), Fraction(3, 4) * (1 + Fraction(1, 2 ** 20))),
+                 'large': (Fraction(3 * 2 ** 15), 3 * 2 ** 15 * (1 + Fraction(1, 2 ** 20))),      # 9.66e9 vs 9.66e9 + 1.8e4
+                 'tiny': (Fraction(1, 2 ** 20), Fraction(3, 2 ** 21)),                             # 9.1e-13, 2.0e-12
+                 'zero-vs-tiny': (Fraction(0), Fraction(1, 2 ** 24)),                              # 0, 3.6e-15
+                 'near-one': (Fraction(1), 1 + Fraction(1, 2 ** 20)),
+                 'beyond-12th-decimal': (Fraction(1, 2 ** 14), Fraction(1, 2 ** 14) * (1 + Fraction(1, 2 ** 22)))}[variant]
+            v = [str(q[0] ** 2), str(q[1] ** 2)]
+        else:
+            v = {'adjacent': (0.3, float(np.nextafter(0.3, 1.0))),
+                 'rel1e-6': (0.75, 0.75 * (1 + 1e-6)),
+                 'large': (2.4e9, 2.4e9 + 2e4),
+                 'tiny': (1e-12, 4e-13),
+                 'zero-vs-tiny': (0.0, 1e-15),
+                 'near-one': (1.0, 1.0 + 1e-6),
+                 'beyond-12th-decimal': (0.5, 0.5 + 1e-13)}[variant]
+            v = [repr(v[0]), repr(v[1])]
+        if self.rng.chance(0.5):
+            v.reverse()
+        return v
+
+    CLOSE = {'setpl': ['adjacent', 'rel1e-6', 'large', 'tiny', 'zero-vs-tiny', 'near-one', 'beyond-12th-decimal'],
+             'noise': ['adjacent', 'rel1e-6', 'large', 'tiny', 'zero-vs-tiny', 'beyond-12th-decimal'],
+             'init': ['adjacent', 'rel1e-6', 'large', 'tiny', 'zero-vs-tiny'],
+             'setw': ['adjacent', 'rel1e-6', 'tiny', 'zero-vs-tiny'],
+             'corrupt': ['adjacent', 'rel1e-6', 'tiny', 'zero-vs-tiny']}
+
+    def plain_state(self, noise=True):
+        """path loss / noise variance / filters with few significant bits (so that the close values of the block that
+        follows - or preceded - never meet a second many-bit factor: the exact stream stays exact)"""
+        rng = self.rng
+        K, E = self.K, len(self.ntE)
+        if rng.chance(0.5):
+            self.ops.append({'op': 'setpl', 'p': None, 'pe': None})
+        else:
+            pool = ['1', '1/4', '4', '9/16'] if self.exact else ['1.0', '0.25', '4.0', '0.5625']
+            self.ops.append({'op': 'setpl', 'p': [[rng.choice(pool) for _ in range(K)] for _ in range(K)],
+                             'pe': [[rng.choice(pool) for _ in range(E)] for _ in range(K)] if self.ext else None})
+        v = rng.choice([None, '1']) if noise else None
+        self.ops.append({'op': 'noise', 'v': v, 'vf': 'float'})
+        self.ops.append({'op': 'setw', 'w': None})
+        self.w_none = self.w_ok = True
+        if rng.chance(0.5):
+            self.op_setw()
+            if self.ops[-1].get('w') is not None:
+                self.ops[-1].update(fws=None, scr=False)
+
+    def jpair(self, rows, cols, variant, real=False):
+        """two complex matrices (JSON form) that differ by little: all entries by a relative 2^-20 / 1e-6, one entry by
+        2^-26 / 1e-13, both tiny (scale 2^-30 / 1e-10, one entry different), or zeros against tiny"""
+        rng = self.rng
+        base = self.mat(rows, cols, 0, real=real)
+        if rows * cols == 0:
+            return base, base
+
+        def mapm(m, f):
+            return [[[str(f(Fraction(a), i, j, 0)) if self.exact else repr(f(float(a), i, j, 0)),
+                      str(f(Fraction(b), i, j, 1)) if self.exact else repr(f(float(b), i, j, 1))]
+                     for j, (a, b) in enumerate(row)] for i, row in enumerate(m)]
+        i0, j0 = rng.below(rows), rng.below(cols)
+        one = (lambda i, j, c: i == i0 and j == j0 and c == 0)
+        if self.exact:
+            eps20, eps26, tiny, big = Fraction(1, 2 ** 20), Fraction(1, 2 ** 26), Fraction(1, 2 ** 30), Fraction(2 ** 20)
+        else:
+            eps20, eps26, tiny, big = 1e-6, 1e-13, 1e-10, 1e6
+        if variant == 'rel1e-6':
+            a, b = base, mapm(base, lambda x, i, j, c: x * (1 + eps20))
+            if all(Fraction(z) == 0 for row in base for e_ in row for z in e_):
+                b = mapm(base, lambda x, i, j, c: x + (eps20 if one(i, j, c) else 0))
+        elif variant == 'adjacent':
+            a, b = base, mapm(base, lambda x, i, j, c: x + (eps26 if one(i, j, c) else 0))
+        elif variant == 'large':
+            a = mapm(base, lambda x, i, j, c: x * big)
+            b = mapm(base, lambda x, i, j, c: x * big + (1 if one(i, j, c) else 0))
+        elif variant == 'tiny':
+            a = mapm(base, lambda x, i, j, c: x * tiny)
+            b = mapm(base, lambda x, i, j, c: (x + (1 if one(i, j, c) else 0)) * tiny)
+        else:   # zero-vs-tiny
+            a = mapm(base, lambda x, i, j, c: x * 0)
+            b = mapm(base, lambda x, i, j, c: (x + (1 if one(i, j, c) else 0)) * tiny)
+        return (b, a) if rng.chance(0.5) else (a, b)
+
+    def op_close(self, kind=None, variant=None):
+        """R15: <entry point>(v1), every observable, <entry point>(v2) with v2 close to v1 but different, every
+        observable again (each must be what a first-principles computation gives for THAT value)"""
+        rng = self.rng
+        kind = kind or rng.choice(list(self.CLOSE))
+        variant = variant or rng.choice(self.CLOSE[kind])
+        mark = '%s:%s' % (kind, variant)
+        K, E = self.K, len(self.ntE)
+        small_scale = variant in ('tiny', 'zero-vs-tiny', 'beyond-12th-decimal')
+        self.plain_state(noise=not (small_scale and kind == 'setpl'))
+        start = len(self.ops)
+
+        def observe():
+            for v in ['pl', 'bigH', 'H', 'nv', 'bigW'] + (['bigHne', 'Hne'] if self.ext else []):
+                self.ops.append({'op': v})
+            self.ops.append({'op': 'Hk', 'k': rng.below(K), 'kf': 'py'})
+            self.ops.append({'op': 'Hkl', 'k': rng.below(K), 'l': rng.below(K + E), 'kf': 'py'})
+            self.op_corrupt()
+            self.ops[-1].update(fxs=None, scr=False, xcont='objarr')
+            self.ops.append({'op': 'ln'})
+        if kind == 'setpl':
+            v1, v2 = self.close_values(variant)
+            others = ['1', '1/4', '4'] if self.exact else ['1.0', '0.25', '4.0']
+            every = small_scale or rng.chance(0.5)      # small scales: the whole matrix is of that scale
+            k0, l0 = rng.below(K), rng.below(K + E)
+            base = [[rng.choice(others) for _ in range(K + E)] for _ in range(K)]
+            for v in (v1, v2):
+                full = [[v if (every or (k, l) == (k0, l0)) else base[k][l] for l in range(K + E)] for k in range(K)]
+                self.ops.append({'op': 'setpl', 'p': [row[:K] for row in full],
+                                 'pe': [row[K:] for row in full] if self.ext else None, 'kw': rng.chance(0.3)})
+                observe()
+        elif kind == 'noise':
+            for v in self.close_values(variant):
+                self.ops.append({'op': 'noise', 'v': v, 'vf': 'float'})
+                observe()
+        elif kind == 'init':
+            real = rng.chance(0.2)
+            Ms = self.jpair(sum(self.nr), sum(self.nt) + sum(self.ntE), variant, real=real)
+            for M in Ms:
+                op = self.init_op('init', self.K, list(self.nr), list(self.nt), list(self.ntE))
+                op.update(M=M, fM=None, scr=False, nrf='array', ntf='array', ntef='array')
+                self.ops.append(op)
+                observe()
+        elif kind == 'setw':
+            cols = [rng.randint(1, n) for n in self.nr]
+            pairs = [self.jpair(n, c, variant) for n, c in zip(self.nr, cols)]
+            which = rng.below(len(pairs))           # one filter changes (all of them for the small scales)
+            for t in (0, 1):
+                w = [pr[t] if (small_scale or i == which) else pr[0] for i, pr in enumerate(pairs)]
+                self.ops.append({'op': 'setw', 'w': w, 'as_list': rng.chance(0.5)})
+                self.w_none, self.w_ok = False, True
+                observe()
+        else:   # corrupt: two transmissions whose data differ by little
+            ns = rng.randint(1, 2)
+            pairs = [self.jpair(n, ns, variant) for n in list(self.nt) + list(self.ntE)]
+            which = rng.below(len(pairs))
+            for t in (0, 1):
+                x = [pr[t] if (small_scale or i == which) else pr[0] for i, pr in enumerate(pairs)]
+                self.ops.append({'op': rng.choice(['corrupt', 'corrupt', 'corruptc']), 'x': x[:len(self.nt)],
+                                 'xe': x[len(self.nt):], 'nseed': rng.below(1 << 31), 'ns': ns,
+                                 'xcont': 'objarr'})
+                self.ops.append({'op': 'ln'})
+        for o in self.ops[start:]:
+            o['close'] = mark
+        if kind == 'init':
+            # back to a channel with few significant bits (a later block brings its own many-bit factor)
+            op = self.init_op('init', self.K, list(self.nr), list(self.nt), list(self.ntE))
+            op.update(fM=None, scr=False, nrf='array', ntf='array', ntef='array')
+            self.ops.append(op)
+        self.plain_state()
+
+    # ---- R16: one array object in two roles
+    def op_roles(self):
+        """a layout in which Nr, Nt (and NtE), the two parts of the path loss, the data blocks / the two data lists
+        and the filters can be THE SAME array object (equal contents; BufPool hands out one array for them)"""
+        rng = self.rng
+        K = rng.randint(2, 3)
+        n = rng.randint(1, 2)
+        E = [n] * K if self.ext else []
+        op = self.init_op('init', K, [n] * K, [n] * K, E)
+        op.update(nrf='array', ntf='array', ntef='array', fM=None, M=self.mat(n * K, n * K + sum(E), self.ea))
+        self.ops.append(op)
+        self.K, self.nr, self.nt, self.ntE = K, [n] * K, [n] * K, E
+        pool = ['1', '1/4', '4', '9/16', '1/16'] if self.exact else ['1.0', '0.25', '4.0', '0.5', '2.0']
+        for rep in range(rng.randint(2, 3)):
+            P = [[rng.choice(pool) for _ in range(K)] for _ in range(K)]
+            self.ops.append({'op': 'setpl', 'p': P, 'pe': [list(r) for r in P] if self.ext else None, 'scr': rng.chance(0.5)})
+            self.ops.append({'op': 'pl'})
+            w1 = self.mat(n, 1, self.ec)
+            self.ops.append({'op': 'setw', 'w': [w1] * K, 'as_list': rng.chance(0.5), 'scr': rng.chance(0.5)})
+            self.w_none, self.w_ok = False, True
+            self.ops.append({'op': 'bigW'})
+            x1 = self.mat(n, 2, self.eb)
+            self.ops.append({'op': 'corrupt', 'x': [x1] * K, 'xe': [x1] * len(E), 'nseed': rng.below(1 << 31), 'ns': 2,
+                             'xcont': 'objarr', 'scr': rng.chance(0.5)})
+            self.ops.append({'op': 'ln'})
+            self.ops.append({'op': rng.choice(['bigH', 'H'])})
+            if rng.chance(0.5):
+                op = self.init_op('init' if (rng.chance(0.5) or not self.exact or True) else 'rand', K, [n] * K, [n] * K, E)
+                op.update(nrf='array', ntf='array', ntef='array', fM=None, M=self.mat(n * K, n * K + sum(E), self.ea),
+                          scr=rng.chance(0.5))
+                self.ops.append(op)
+
     def history(self, length):
         rng = self.rng
         if rng.chance(0.2):          # mutators on the fresh object, before any channel exists (R7)
@@ -729,7 +947,11 @@ class Gen:
         self.op_init()
         while len(self.ops) < length:
             u = rng.uniform()
-            if u < 0.08:
+            if self.mode == 'plain' and rng.chance(0.02):
+                self.op_close()
+            elif self.roles and rng.chance(0.05):
+                self.op_roles()
+            elif u < 0.08:
                 self.op_init()
             elif u < 0.11:
                 self.op_resplit()
@@ -790,7 +1012,7 @@ def unjr(m, ncols):
 class Arg:
     """an array handed to the code under test: the object passed, the buffer it lives in, a snapshot"""
 
-    def __init__(self, label, canon, fmt):
+    def __init__(self, label, canon, fmt, pool=None):
         fmt = fmt or {}
         dt, lay = fmt.get('dt'), fmt.get('lay', 'C')
         b = np.array(canon)
@@ -818,6 +1040,9 @@ class Arg:
             b = np.broadcast_to(np.array(b.flat[0]), b.shape)
         elif lay == 'list':
             b = b.tolist()
+        if pool is not None and isinstance(b, np.ndarray) and self.base is None and lay == 'C' \
+                and b.flags.writeable and b.flags.c_contiguous:
+            b = pool.array(label, b)          # R16: the caller's ONE preallocated array, refilled in place
         self.label, self.obj = label, b
         self.snap = np.array(np.asarray(b))
         self.writeable = b.flags.writeable if isinstance(b, np.ndarray) else None
@@ -845,7 +1070,73 @@ class Arg:
         self.snap = np.array(np.asarray(self.obj))
 
 
-def nvec(vals, f):
+class BufPool:
+    """R16 - the caller's preallocated arrays.  ONE array per (shape, element type) whatever its role (a second one
+    only when a single call needs two different contents of that shape), refilled in place (`buf[...] = new`)
+    before every call; ONE container (list / object array) per role and length, its blocks reassigned in place.
+    Two arguments of one call with equal contents are THE SAME array object (one object in two roles)."""
+
+    def __init__(self):
+        self.bufs = {}
+        self.conts = {}
+        self.begin_call()
+
+    def begin_call(self):
+        self.used = {}
+        self.handed = []        # (key, buffer) handed out in this call
+        self.conts_handed = []
+        self.touched = set()    # id() of the arrays refilled for this call
+        self.notes = []
+        self.problems = []
+
+    def array(self, label, a):
+        key = (a.shape, a.dtype.str)
+        for (k, b, lab) in self.handed:
+            if k == key and np.array_equal(b, a):
+                if lab.rstrip('0123456789') != label.rstrip('0123456789'):
+                    self.notes.append('two-roles')
+                else:
+                    self.notes.append('same-block-twice')
+                return b
+        lst = self.bufs.setdefault(key, [])
+        i = self.used.get(key, 0)
+        self.used[key] = i + 1
+        if i < len(lst):
+            b = lst[i]
+            if not b.flags.writeable:       # the library took the caller's array away
+                self.problems.append('caller-array-made-read-only:' + label.rstrip('0123456789'))
+                b = lst[i] = np.empty(a.shape, dtype=a.dtype)
+            else:
+                self.notes.append('refilled')
+        else:
+            b = np.empty(a.shape, dtype=a.dtype)
+            lst.append(b)
+        b[...] = a
+        self.touched.add(id(b))
+        self.handed.append((key, b, label))
+        return b
+
+    def container(self, role, kind, blocks):
+        for (k_, c_) in self.conts_handed:
+            if k_ == kind and len(c_) == len(blocks) and all(x is y for x, y in zip(c_, blocks)):
+                self.notes.append('two-roles')
+                return c_                 # e.g. corrupt_data(D, D)
+        key = (role, kind, len(blocks))
+        c = self.conts.get(key)
+        if c is None:
+            c = [None] * len(blocks) if kind == 'list' else np.empty(len(blocks), dtype=object)
+            self.conts[key] = c
+        else:
+            self.notes.append('refilled')
+        for i, b in enumerate(blocks):
+            c[i] = b
+        self.conts_handed.append((kind, c))
+        return c
+
+
+def nvec(vals, f, pool=None, label='N'):
+    if pool is not None and f == 'array':
+        return pool.array(label, np.array(vals, dtype=int))
     if f == 'pyint':
         return int(vals[0])
     if f == 'npint':
@@ -897,8 +1188,9 @@ def deep(o):
     return o
 
 
-def do_op(ch, ext, op, rec, args):
-    """one operation of a history on the real object `ch` (positional or keyword arguments, R8)"""
+def do_op(ch, ext, op, rec, args, pool=None):
+    """one operation of a history on the real object `ch` (positional or keyword arguments, R8); `pool` (R16): the
+    arrays reach the object through the caller's refilled buffers"""
     kind = op['op']
     kw = bool(op.get('kw'))
 
@@ -907,11 +1199,11 @@ def do_op(ch, ext, op, rec, args):
     if True:
         if kind in ('init', 'rand'):
             nr, nt, K, ntE = op['nr'], op['nt'], op['K'], op['ntE']
-            Nr, Nt = nvec(nr, op.get('nrf', 'array')), nvec(nt, op.get('ntf', 'array'))
-            NtE = nvec(ntE, op.get('ntef', 'array')) if ext else None
+            Nr, Nt = nvec(nr, op.get('nrf', 'array'), pool, 'Nr'), nvec(nt, op.get('ntf', 'array'), pool, 'Nt')
+            NtE = nvec(ntE, op.get('ntef', 'array'), pool, 'NtE') if ext else None
             Kv = scalar(K, op.get('kf', 'py'))
             if kind == 'init':
-                a = Arg('channel_matrix', unj(op['M'], sum(nt) + sum(ntE)), op.get('fM'))
+                a = Arg('channel_matrix', unj(op['M'], sum(nt) + sum(ntE)), op.get('fM'), pool)
                 args.append(a)
                 if ext:
                     call(ch.init_from_channel_matrix, [a.obj, Nr, Nt, Kv, NtE],
@@ -938,11 +1230,11 @@ def do_op(ch, ext, op, rec, args):
                     call(ch.set_pathloss, [None], ['pathloss_matrix'])
             else:
                 ncol = len(op['p'][0]) if op['p'] else 0
-                a = Arg('pathloss_matrix', unjr(op['p'], ncol), op.get('fp'))
+                a = Arg('pathloss_matrix', unjr(op['p'], ncol), op.get('fp'), pool)
                 args.append(a)
                 if ext:
                     ne = len(op['pe'][0]) if op['pe'] else 0
-                    b = Arg('ext_int_pathloss', unjr(op['pe'], ne), op.get('fpe'))
+                    b = Arg('ext_int_pathloss', unjr(op['pe'], ne), op.get('fpe'), pool)
                     args.append(b)
                     call(ch.set_pathloss, [a.obj, b.obj], ['pathloss_matrix', 'ext_int_pathloss'])
                 else:
@@ -961,11 +1253,15 @@ def do_op(ch, ext, op, rec, args):
                 call(ch.set_post_filter, [None], ['filters'])
             else:
                 fws = op.get('fws') or [op.get('fw')] * len(op['w'])
-                ws = [Arg('filter%d' % i, unj(w), fws[i]) for i, w in enumerate(op['w'])]
+                ws = [Arg('filter%d' % i, unj(w), fws[i], pool) for i, w in enumerate(op['w'])]
                 args += ws
                 objs = [w.obj for w in ws]
-                call(ch.set_post_filter, [objs if (op.get('as_list') or any(isinstance(o, list) for o in objs))
-                                          else objarr(objs)], ['filters'])
+                as_list = op.get('as_list') or any(isinstance(o, list) for o in objs)
+                if pool is not None:
+                    fl = pool.container('filters', 'list' if as_list else 'objarr', objs)
+                else:
+                    fl = objs if as_list else objarr(objs)
+                call(ch.set_post_filter, [fl], ['filters'])
         elif kind == 'H':
             rec['out'] = ch.H
         elif kind == 'bigH':
@@ -1002,15 +1298,15 @@ def do_op(ch, ext, op, rec, args):
             ns = op.get('ns')
             nb = len(op['x']) + len(op['xe'])
             fxs = op.get('fxs') or [op.get('fx')] * nb
-            xs = [Arg('data%d' % i, unj(m) if ns is None else unj(m).reshape(len(m), ns), fxs[i])
+            xs = [Arg('data%d' % i, unj(m) if ns is None else unj(m).reshape(len(m), ns), fxs[i], pool)
                   for i, m in enumerate(op['x'])]
             xes = [Arg('ext_data%d' % i, unj(m) if ns is None else unj(m).reshape(len(m), ns),
-                       fxs[len(op['x']) + i]) for i, m in enumerate(op['xe'])]
+                       fxs[len(op['x']) + i], pool) for i, m in enumerate(op['xe'])]
             args += xs + xes
             if kind == 'corruptc':
                 # the caller stacks (numpy promotes over all blocks) and may pass any layout
                 big = Arg('data', np.vstack([np.asarray(a.obj) for a in xs + xes]),
-                          {'dt': None, 'lay': (op.get('fx') or {}).get('lay', 'C')})
+                          {'dt': None, 'lay': (op.get('fx') or {}).get('lay', 'C')}, pool)
                 args[:] = [a_ for a_ in args if a_ not in xs + xes] + [big]
                 rec['out'] = call(ch.corrupt_concatenated_data, [big.obj], ['data'])
             else:
@@ -1024,7 +1320,16 @@ def do_op(ch, ext, op, rec, args):
                 ch.corrupt_concatenated_data = spy
                 try:
                     cont = {'objarr': objarr, 'list': list, 'tuple': tuple}[op.get('xcont', 'objarr')]
-                    if ext:
+                    if pool is not None and ext:
+                        rec['out'] = call(ch.corrupt_data,
+                                          [pool.container('data', 'objarr', [a.obj for a in xs]),
+                                           pool.container('ext_int_data', 'objarr', [a.obj for a in xes])],
+                                          ['data', 'ext_int_data'])
+                    elif pool is not None:
+                        kind_ = 'objarr' if op.get('xcont', 'objarr') == 'objarr' else 'list'
+                        rec['out'] = call(ch.corrupt_data, [pool.container('data', kind_, [a.obj for a in xs])],
+                                          ['data'])
+                    elif ext:
                         rec['out'] = call(ch.corrupt_data, [objarr([a.obj for a in xs]),
                                                             objarr([a.obj for a in xes])], ['data', 'ext_int_data'])
                     else:
@@ -1112,17 +1417,20 @@ def run_impl(case, want_obj=False):
     recs = []
     inputs = []        # Arg objects of the recent calls (R3: must stay what the caller made them)
     outputs = []       # (label, arrays returned, their values at return time)
+    pool = BufPool() if case.get('reuse') else None     # R16
     with patched_randn(exact):
         ch = mu.MultiUserChannelMatrixExtInt() if ext else mu.MultiUserChannelMatrix()
         for op in case['ops']:
             rec = {'out': None, 'exc': None, 'r3': []}
             kind = op['op']
             args = []
+            if pool is not None:
+                pool.begin_call()
             try:
                 if kind == 'fork':
                     rec['child'] = run_child(ch, ext, op)
                 else:
-                    do_op(ch, ext, op, rec, args)
+                    do_op(ch, ext, op, rec, args, pool)
             except core.Infra:
                 raise
             except Exception as e:   # noqa: an exception is an observable result of the op
@@ -1135,6 +1443,11 @@ def run_impl(case, want_obj=False):
             o = rec['out']
             val = o[1] if isinstance(o, tuple) and o[0] in ('opt', 'sc') else o
             returned = arrays_of(val) if not isinstance(o, tuple) or o[0] == 'opt' else []
+            if pool is not None:
+                # the arrays of earlier calls that the caller has just refilled are no longer those calls' inputs
+                inputs = [a for a in inputs if id(a.obj) not in pool.touched]
+                rec['r3'] += ['r16:' + p_ for p_ in pool.problems]
+                rec['r16'] = sorted(set(pool.notes))
             inputs += args
             inputs = inputs[-12:]
             for a in inputs:
@@ -1412,6 +1725,10 @@ def op_tags(op, case):
         t.add('R4')
     if case.get('mode') == 'scaled':
         t.add('R6')
+    if op.get('close'):
+        t.add('R15')
+    if case.get('reuse'):
+        t.add('R16')
     if op['op'] in ('layout', 'pl', 'bigW', 'nv', 'ln', 'corruptc') or op.get('alt') or op.get('pre') \
             or op.get('noarg'):
         t.add('R7')
@@ -1607,7 +1924,7 @@ def oracle_history(case):
                     want = ('layout', sh.K, list(sh.nr), list(sh.nt), list(sh.ntE), len(sh.ntE))
                     bad = None if tuple(got) == want else 'K/Nr/Nt/extIntNt are %s, the configuration is %s' % (got[1:], want[1:])
                 elif kind == 'pl':
-                    bad = None if same(got[1], sh.pl, True if exact else False) else 'pathloss is not the matrix set last'
+                    bad = None if same(got[1], sh.pl, True) else 'pathloss is not (bit for bit) the matrix set last'
                 elif kind == 'bigW':
                     bad = None if same(got[1], sh.bigW(), exact) else 'big_W is not block_diag of the filters set last'
                     if bad is None and (rec.get('W') is None) != (sh.W is None):
@@ -1941,10 +2258,28 @@ def note_branches(ctx, case):
             ctx.branch('r13:derived-object')
         if k in ('init', 'rand') and not op.get('expect') and op['K'] >= 257:
             ctx.branch('r14:users>=257')
+        if op.get('close'):
+            ck, cv = op['close'].split(':')
+            ctx.branch('r15:' + CALLS[ck])
+            ctx.branch('r15:variant:' + cv)
+            ctx.branch('r15:stream:' + case.get('stream', 'exact'))
         if op.get('pre'):
             ctx.branch('r7:mutators-before-first-init')
         if k in ('layout', 'pl', 'bigW', 'nv', 'ln'):
             ctx.branch('r7:observer:' + k)
+
+
+def note_r16(ctx, case, recs):
+    """R16 branches: which entry points really received a refilled array / one array object in two roles"""
+    if not case.get('reuse'):
+        return
+    for op, rec in zip(case['ops'], recs):
+        for n in rec.get('r16') or []:
+            if not rec.get('exc') or op.get('expect'):
+                ctx.branch('r16:%s:%s' % (n, CALLS[op['op']]))
+                ctx.branch('r16:%s:%s' % (n, case['cls']))
+        if op.get('scr') and op['op'] in MUTATORS + ('corrupt', 'corruptc'):
+            ctx.branch('r16:argument-overwritten-after-call')
 
 
 def correspond(ctx, cases, tag):
@@ -1965,6 +2300,7 @@ def correspond(ctx, cases, tag):
             continue
         batch.append((case, recs, line, idx))
         note_branches(ctx, case)
+        note_r16(ctx, case, recs)
     # R13: for every derived object the model runs  prefix + child operations
     forks = []
     for (case, recs, line, idx) in batch:
@@ -2268,10 +2604,90 @@ def seeded_cases(ctx, n, maxlen, exact=True):
     for i in range(n):
         ext = bool(i % 2)
         mode = ('plain', 'typed', 'scaled', 'plain', 'typed')[(i // 2) % 5] if exact else ('plain', 'scaled')[(i // 2) % 2]
-        g = Gen(ctx.rng.fork('h%d' % i), ext, exact=exact, mode=mode)
+        # R16: one of the two plain slots runs through the caller's refilled buffers
+        reuse = mode == 'plain' and ((i // 2) % 5 == 3 if exact else (i // 2) % 4 == 0)
+        g = Gen(ctx.rng.fork('h%d' % i), ext, exact=exact, mode=mode, roles=reuse)
         ops = g.history(ctx.rng.randint(2, maxlen))
-        cases.append({'cls': 'ext' if ext else 'plain', 'stream': 'exact' if exact else 'float', 'mode': mode,
-                      'ops': ops})
+        c = {'cls': 'ext' if ext else 'plain', 'stream': 'exact' if exact else 'float', 'mode': mode, 'ops': ops}
+        if reuse:
+            c['reuse'] = True
+        cases.append(c)
+    return cases
+
+
+def r15_scenarios(ctx, exact=True, reps=1):
+    """R15: every entry point x every kind of closeness, on both classes (a small fixed set of shapes; the values
+    of the channel / data are seeded)"""
+    cases = []
+    for rep in range(reps):
+        for ext in (False, True):
+            for kind in Gen.CLOSE:
+                for variant in Gen.CLOSE[kind]:
+                    g = Gen(ctx.rng.fork('r15-%d-%d-%s-%s-%d' % (rep, ext, kind, variant, exact)), ext, exact=exact,
+                            kmax=3, amax=2)
+                    g.op_init('init')
+                    g.ops[-1].update(scr=False)
+                    g.op_close(kind, variant)
+                    c = {'cls': 'ext' if ext else 'plain', 'stream': 'exact' if exact else 'float', 'mode': 'plain',
+                         'name': 'r15-%s-%s-%s' % ('ext' if ext else 'plain', kind, variant), 'ops': g.ops}
+                    if (rep + len(cases)) % 3 == 0:
+                        c['reuse'] = True          # the close value arrives in the SAME array object (R15 x R16)
+                    cases.append(c)
+    return cases
+
+
+def r16_scenarios(ctx, exact=True, reps=1):
+    """R16: (a) every entry point that takes arrays called 3 times in a row with the caller's ONE array refilled in
+    place (new contents, same shape), reads in between, the array overwritten after the call; (b) one array object
+    in two roles (op_roles); (c) a seeded history through the buffer pool"""
+    cases = []
+    for rep in range(reps):
+        for ext in (False, True):
+            cls = 'ext' if ext else 'plain'
+            rng = ctx.rng.fork('r16-%d-%d-%d' % (rep, ext, exact))
+            g = Gen(rng, ext, exact=exact, kmax=3, amax=2)
+            g.op_init('init')
+            lay = (g.K, list(g.nr), list(g.nt), list(g.ntE))
+            reads = lambda: [g.ops.append({'op': v}) for v in ('bigH', 'H', 'pl', 'bigW')] + \
+                [g.ops.append({'op': 'Hk', 'k': rng.below(g.K), 'kf': 'py'})]
+            for entry in ('init', 'setpl', 'setw', 'corrupt', 'corruptc', 'init') + (('rand',) if exact else ()):
+                for t in range(3):
+                    if entry == 'rand':
+                        op = g.init_op('rand', *lay)
+                        op.update(nrf='array', ntf='array', ntef='array', reseed=False)
+                        g.ops.append(op)
+                    elif entry == 'init':
+                        op = g.init_op('init', *lay)
+                        op.update(M=g.mat(sum(lay[1]), sum(lay[2]) + sum(lay[3]), g.ea), fM=None, nrf='array',
+                                  ntf='array', ntef='array', scr=bool(t % 2))
+                        g.ops.append(op)
+                    elif entry == 'setpl':
+                        g.op_setpl()
+                        if g.ops[-1]['p'] is None:
+                            g.ops.pop()
+                            g.op_close('setpl', 'adjacent')
+                        else:
+                            g.ops[-1].update(fp=None, fpe=None, scr=bool(t % 2))
+                    elif entry == 'setw':
+                        w = [g.mat(n, 1, g.ec) for n in g.nr]
+                        g.ops.append({'op': 'setw', 'w': w, 'as_list': bool(rep % 2), 'scr': bool(t % 2)})
+                        g.w_none, g.w_ok = False, True
+                    else:
+                        x = [g.mat(n, 2, g.eb) for n in g.nt]
+                        xe = [g.mat(n, 2, g.eb) for n in g.ntE]
+                        g.ops.append({'op': entry, 'x': x, 'xe': xe, 'nseed': rng.below(1 << 31), 'ns': 2,
+                                      'xcont': 'objarr' if (t + rep) % 2 == 0 else 'list', 'scr': bool(t % 2)})
+                        g.ops.append({'op': 'ln'})
+                    reads()
+                if entry == 'setw':
+                    g.ops.append({'op': 'noise', 'v': '1', 'vf': 'float'})
+            cases.append({'cls': cls, 'stream': 'exact' if exact else 'float', 'mode': 'plain', 'reuse': True,
+                          'name': 'r16-refill-%s' % cls, 'ops': g.ops})
+            g = Gen(ctx.rng.fork('r16-roles-%d-%d-%d' % (rep, ext, exact)), ext, exact=exact, roles=True)
+            g.op_roles()
+            g.burst()
+            cases.append({'cls': cls, 'stream': 'exact' if exact else 'float', 'mode': 'plain', 'reuse': True,
+                          'name': 'r16-roles-%s' % cls, 'ops': g.ops})
     return cases
 
 
@@ -2296,7 +2712,15 @@ REQUIRED = ['read-mutate-read:plain', 'read-mutate-read:ext', 'relayout:plain', 
             'r8:default-argument', 'r9:index-form:np.uint16', 'r9:index-form:np.intp', 'r9:index-form:arr0d',
             'r9:index-form:np.uint64', 'r9:index-above-256', 'r11:query:calc_SINR', 'r11:query:calc_Q',
             'r11:query:deepcopy', 'r11:query:pickle', 'r13:derived-object', 'r13:derived-object:plain:copy',
-            'r13:derived-object:plain:deepcopy', 'r13:derived-object:ext:pickle', 'r14:users>=257']
+            'r13:derived-object:plain:deepcopy', 'r13:derived-object:ext:pickle', 'r14:users>=257'] + \
+    ['r15:' + c for c in ('set_pathloss', 'noise_var', 'init_from_channel_matrix', 'set_post_filter', 'corrupt_data')] + \
+    ['r15:variant:' + v for v in ('adjacent', 'rel1e-6', 'large', 'tiny', 'zero-vs-tiny', 'near-one',
+                                  'beyond-12th-decimal')] + ['r15:stream:exact', 'r15:stream:float'] + \
+    ['r16:refilled:' + c for c in ('init_from_channel_matrix', 'randomize', 'set_pathloss', 'set_post_filter', 'corrupt_data',
+                                   'corrupt_concatenated_data', 'plain', 'ext')] + \
+    ['r16:two-roles:' + c for c in ('init_from_channel_matrix', 'set_pathloss', 'corrupt_data', 'plain', 'ext')] + \
+    ['r16:same-block-twice:set_post_filter', 'r16:same-block-twice:corrupt_data',
+     'r16:argument-overwritten-after-call']
 
 
 def check(ctx):
@@ -2312,7 +2736,10 @@ def check(ctx):
                 'the calls; length 2..L; exact stream (Gaussian integers, square path losses, integer RNG) compared '
                 'token by token with the Lean model, the same generator with real floats for the oracle-only stream; '
                 'evaluations = operations executed; non-trivial = a read of a view that was read before the latest '
-                'mutation (read-mutate-read), a transmission, or a rejected call')
+                'mutation (read-mutate-read), a transmission, or a rejected call; R15 blocks (setter(v1), all '
+                'observables, setter(v2 close to v1), all observables; fixed scenario set + 2% of the plain-mode '
+                'steps); R16: one plain-mode slot in five and the r16 scenarios run through the caller\'s refilled '
+                'preallocated arrays (BufPool), layouts in which one array serves two parameters')
     proved = core.prove(ctx, MODULE, generated=['C08Effects'], drivers=[DRIVER], scratch=ctx.scratch)
     if not proved and not any(b['kind'] == 'tie' for b in ctx.broken):
         from harness.gen import _effects
@@ -2324,7 +2751,9 @@ def check(ctx):
     bigs = [big_case(ctx.rng.fork('big'), 257, bool(ctx.seed % 2))] if quick else \
         [big_case(ctx.rng.fork('big%d' % K), K, e, full_H=(K == 257 and not e))
          for K in (257, 258, 300) for e in (False, True)]
-    corpus = corpus + bigs
+    corpus = corpus + bigs + r15_scenarios(ctx, reps=1 if quick else 6) + r16_scenarios(ctx, reps=1 if quick else 8)
+    float_scen = r15_scenarios(ctx, exact=False, reps=1 if quick else 4) + \
+        r16_scenarios(ctx, exact=False, reps=1 if quick else 4)
     try:
         correspond(ctx, corpus, 'corpus')
         correspond(ctx, cases, 'seeded')
@@ -2349,6 +2778,9 @@ def check(ctx):
         run_oracle(ctx, c, ('corpus', i))
     for i, c in enumerate(cases[:n_hist if quick else 2500]):
         run_oracle(ctx, c, ('seeded', i))
+    for i, c in enumerate(float_scen):
+        run_oracle(ctx, c, ('float-scenario', i))
+        note_branches(ctx, c)
     for i, c in enumerate(seeded_cases(ctx, 150 if quick else 1500, maxlen, exact=False)):
         run_oracle(ctx, c, ('float', i))
     if not quick:
